@@ -455,6 +455,7 @@ func runPipelineCaller(p *Prog, r *Report, prop string) {
 }
 
 func runC38(p *Prog, r *Report) {
+	timerArmedWithCheckedDuration(p, r)
 	runPipelineCaller(p, r, "C38")
 	// the overflow error of the non-deadline call comes only from the default branch of a non-blocking send
 	fn := p.Func("(*pipelineConnClient).Do")
@@ -941,4 +942,58 @@ func closeInputsRule(p *Prog, r *Report, closure *ssa.Function) {
 		}
 	}
 	r.Floor("R5", "calls overwriting the header of a Response", nclob, 3)
+}
+
+// timerArmedWithCheckedDuration (C38.R3): acquirePipelineWork arms the work's
+// timer only for a positive duration (zero or less means "no deadline", which
+// is how the non-deadline call uses it). In the deadline call the duration it
+// is given must therefore be the very value whose positivity was tested on the
+// way - a duration computed again later can have run out in between, and the
+// call then waits without any timer.
+func timerArmedWithCheckedDuration(p *Prog, r *Report) {
+	acq := p.Func("(*pipelineConnClient).acquirePipelineWork")
+	if acq == nil {
+		r.Undecided("R3", "(*pipelineConnClient).acquirePipelineWork", "not found")
+		return
+	}
+	n := 0
+	for _, fn := range p.funcsIn("") {
+		if !strings.Contains(fn.Name(), "Deadline") {
+			continue
+		}
+		allCalls(fn, func(b *ssa.BasicBlock, c ssa.CallInstruction) {
+			if !isCallTo(c, acq) || len(c.Common().Args) != 2 {
+				return
+			}
+			n++
+			d := c.Common().Args[1]
+			checked := false
+			if k, isC := constInt(d); isC && k > 0 {
+				checked = true
+			}
+			for _, g := range guardsOf(b) {
+				bo, ok := g.Cond.(*ssa.BinOp)
+				if !ok {
+					continue
+				}
+				for _, pair := range [][2]ssa.Value{{bo.X, bo.Y}, {bo.Y, bo.X}} {
+					if pair[0] != d {
+						continue
+					}
+					if _, isC := constInt(pair[1]); !isC {
+						continue
+					}
+					z := newZone()
+					z.assumeCmp(bo.Op, bo.X, bo.Y, g.Pol)
+					nd, od := z.term(d)
+					if !z.infeasible() && z.entails(0, 1, nd, od, 0) { // 1 <= d
+						checked = true
+					}
+				}
+			}
+			r.Check("R3", funcName(fn)+": the duration that arms the work's timer is a value found positive on every path to the call", checked, p.Pos(c.Pos()),
+				"acquirePipelineWork treats a non-positive duration as 'no deadline'; the duration handed over here is not the one whose positivity was tested, so a deadline that runs out in between leaves the call waiting for the response with no timer at all")
+		})
+	}
+	r.Floor("R3", "timer-arming acquisitions in deadline calls", n, 1)
 }
